@@ -26,6 +26,7 @@ class Query:
     canary: bool = False  # a deliberately false obligation: must come back violated
     prefix: list | None = None
     solver_timeout_ms: int | None = None
+    split_depth: int | None = None  # hand sub-trees below this decision depth to other workers
 
 
 def _child(q: Query, conn):
@@ -35,7 +36,7 @@ def _child(q: Query, conn):
             core.Cfg.solver_timeout_ms = q.solver_timeout_ms
         if q.pre:
             q.pre()
-        res = core.explore(q.fn, q.name, q.params, q.max_paths, q.max_secs, prefix=q.prefix)
+        res = core.explore(q.fn, q.name, q.params, q.max_paths, q.max_secs, prefix=q.prefix, split_depth=q.split_depth)
     except BaseException as e:  # noqa: BLE001  engine bug
         res = core.QueryResult(name=q.name, params=q.params)
         res.error = f"{type(e).__name__}: {e}\n{traceback.format_exc()[-1500:]}"
@@ -101,4 +102,45 @@ def run_queries(queries: list[Query], workers: int | None = None, hard_factor: f
                 progress(queries[i], results[i])
         if not done:
             time.sleep(0.02)
-    return [results[i] for i in range(len(queries))]
+    out = [results[i] for i in range(len(queries))]
+    # second phase: sub-trees of split queries
+    subs, owner = [], []
+    for i, (q, r) in enumerate(zip(queries, out)):
+        if q.split_depth and r.subprefixes and not r.error:
+            for j, pre in enumerate(r.subprefixes):
+                sq = Query(name=f"{q.name}#{j}", fn=q.fn, params=q.params, max_paths=q.max_paths, max_secs=q.max_secs, mode=q.mode,
+                           group=q.group, weight=q.weight, pre=q.pre, canary=q.canary, prefix=pre, solver_timeout_ms=q.solver_timeout_ms)
+                subs.append(sq)
+                owner.append(i)
+    if subs:
+        sres = run_queries(subs, workers=workers, hard_factor=hard_factor, progress=None)
+        for i, sr in zip(owner, sres):
+            merge(out[i], sr)
+        for i in set(owner):
+            out[i].subprefixes = []
+            if progress:
+                progress(queries[i], out[i])
+    return out
+
+
+def merge(a: core.QueryResult, b: core.QueryResult):
+    """fold the result of a sub-tree into its parent query"""
+    a.paths += b.paths
+    a.decisions += b.decisions
+    a.sym_paths += b.sym_paths
+    a.solver_calls += b.solver_calls
+    a.solver_s += b.solver_s
+    a.obligations += b.obligations
+    a.discharged += b.discharged
+    a.sym_obligations += b.sym_obligations
+    off = a.paths
+    a.violations.extend(b.violations)
+    a.inconclusive.extend(b.inconclusive)
+    a.exhaustive = a.exhaustive and b.exhaustive and not b.error
+    a.outcomes.update(b.outcomes)
+    a.labels.update(b.labels)
+    if len(a.samples) < 3:
+        a.samples.extend(b.samples[: 3 - len(a.samples)])
+    a.wall_s = max(a.wall_s, b.wall_s)
+    if b.error:
+        a.error = (a.error or "") + f" | sub {b.name}: {b.error[:300]}"
